@@ -120,6 +120,17 @@ structure CastDef where
   withText : String
 deriving Repr
 
+/-- `strings.TrimSuffix(name, "s")` -/
+def dropPlural (n : String) : String :=
+  if n.endsWith "s" then (n.dropEnd 1).toString else n
+
+/-- the role a cast line names (`parseActors`): the name as written, or — in a `base* play N roles` line only — the
+name without its plural `s` when the name as written is no role -/
+def roleOfCast {β : Type} (c : CastDef) (roles : List (String × β)) : Option β :=
+  match lookup c.role roles with
+  | some r => some r
+  | none => if c.mul.isSome then lookup (dropPlural c.role) roles else none
+
 /-- names and indices the line defines: `base` alone, or `base1 … baseN` with `i = 0 … N-1` -/
 def expandCast (c : CastDef) : List (String × Option Nat) :=
   match c.mul with
